@@ -174,7 +174,7 @@ def _diff_case(case, out):
     inputs = [tuple(r) for r in case["inputs"]]
     cuts = [r for r in inputs if r[0] == "n"]
     dual = P.run_dual(prog, cuts=cuts)
-    if not dual.max_abs < 1e6:
+    if not jdcheck.scale_ok(dtype, dual.max_abs):
         out.excluded = "values-or-tangents-exceed-1e6"
         return
     if cuts:
@@ -188,7 +188,7 @@ def _diff_case(case, out):
             return dual.jac(o_ref, i_ref[1], prog)
         return dual.jac_cut(o_ref, i_ref)
 
-    tol = jdcheck.DERIV_TOL[dtype] * max(1.0, dual.max_abs)
+    tol = jdcheck.deriv_tol(dtype, dual.max_abs)
     B = case["batch"] if case["kind"] == "jac" else 1
     cots = [torch.stack([_vals(rng, list(o.shape), case["real"], tdt) for _ in range(B)]) for o in outs]
     cmax = max(1.0, max(float(c.abs().max()) for c in cots)) * sum(o.numel() for o in outs)
@@ -271,7 +271,7 @@ def _diff_case(case, out):
 def _chain_case(case, out):
     prog, dtype = case["prog"], case["dtype"]
     dual = P.run_dual(prog)
-    if not dual.max_abs < 1e6:
+    if not jdcheck.scale_ok(dtype, dual.max_abs):
         out.excluded = "values-or-tangents-exceed-1e6"
         return
     g = P.TorchGraph(prog)
@@ -290,7 +290,7 @@ def _chain_case(case, out):
     except Exception as e:  # noqa: BLE001
         out.check(False, f"raises:chain:{type(e).__name__}", str(e)[:250])
         return
-    tol = jdcheck.DERIV_TOL[dtype] * max(1.0, dual.max_abs) ** 2 * 8
+    tol = jdcheck.deriv_tol(dtype, dual.max_abs) * max(1.0, dual.max_abs) * 8
     for li, x in zip(prog["shared_leaves"], shared):
         ok_shape = tuple(chained[x].shape) == (m,) + tuple(x.shape) and tuple(direct[x].shape) == (m,) + tuple(x.shape)
         if not out.check(ok_shape, "chain-shape", f"shared leaf {li}: chained {tuple(chained[x].shape)}, end-to-end "
